@@ -418,6 +418,57 @@ except KeyError:
             need(R, '3.direct', 'DOM', site, '%s builds klass(**config) with every remaining key of the section' % nm, f,
                  ['V_cfg, V_k, V_m = determine_klass(V_cfg, V_field, V_fac, V_base)', 'V_o = V_k(**V_cfg)', 'return V_o'],
                  binding={'V_cfg': f.params()[0]})
+    site = FA + '::create_model'
+    with R.guard('3.model', 'DOM', site, 'model keys'):
+        f = ix.func(site)
+        from sa.helpers import need
+        ps = f.params()
+        need(R, '3.model', 'DOM', site,
+             'create_model hands EVERY scalar key of [Model] to the constructor (an unknown key then fails in the '
+             'constructor call); sub-sections go to generate_contributions', f,
+             ['V_cfg, V_k, V_mix = determine_klass(V_cfg, \'model_type\', model_factory, ForwardModel)',
+              'V_kw = get_keywordarg_dict(V_k, V_mix)',
+              'V_kw.update(dict([(V_a, V_b) for V_a, V_b in V_cfg.items() if not isinstance(V_b, dict)]))',
+              'V_o = V_k(**V_kw)', 'V_c = generate_contributions(V_cfg)', '''
+for V_ci in V_c:
+    V_o.add_contribution(V_ci)
+''', 'return V_o'], binding={'V_cfg': ps[0]})
+        fl = mkflow(ix, site)
+        comp = [n for n in ast.walk(f.node) if isinstance(n, ast.ListComp) and 'items()' in unparse(n)]
+        extra = [unparse(i) for c in comp for g in c.generators for i in g.ifs
+                 if not unparse(i).startswith('not isinstance(')]
+        R.check('3.model.filter', 'DOM', site, 'no [Model] key is filtered out before the constructor call',
+                not extra, key='filter %s' % extra,
+                detail='keys are dropped when %s: an unknown or mistyped key is silently ignored and the default used' % extra,
+                loc=f.loc())
+        for role, arg in (('planet', ps[4]), ('star', ps[5]), ('chemistry', ps[1]), ('temperature_profile', ps[2]),
+                          ('pressure_profile', ps[3])):
+            ok = any(isinstance(n, ast.Assign) and unparse(n.targets[0]).endswith("['%s']" % role) and
+                     unparse(n.value) == arg for n in ast.walk(f.node))
+            R.check('3.model.comp', 'ARG', site + '{' + role + '}', 'the %s component built from its own section is passed as %r' % (role, role),
+                    ok, key='%s <- ?' % role, detail='component %s is not passed under %r' % (arg, role), loc=f.loc())
+    # the construction path is stateless: no caching decorator, defaults dictionary built per call
+    m = ix.module(FA)
+    bad = ['%s @%s' % (n, d) for n, fn in sorted(m.functions.items()) for d in fn.decorators()]
+    R.check('3.stateless', 'EFF', FA, 'no function of the factory module is wrapped by a (caching) decorator',
+            not bad, key='; '.join(bad),
+            detail='%s: create_klass / create_model write the section\'s values into the dictionary returned by '
+                   'get_keywordarg_dict, so a cached dictionary carries values from one object to the next' % bad)
+    site = FA + '::get_keywordarg_dict'
+    with R.guard('3.fresh', 'EFF', site, 'fresh defaults'):
+        f = ix.func(site)
+        fl = mkflow(ix, site)
+        rets = fl.of('return')
+        ok = bool(rets) and all(isinstance(r.value_ast, ast.Name) for r in rets)
+        for r in rets:
+            if isinstance(r.value_ast, ast.Name):
+                defs = [n for n in ast.walk(f.node) if isinstance(n, ast.Assign) and isinstance(n.targets[0], ast.Name)
+                        and n.targets[0].id == r.value_ast.id]
+                ok = ok and bool(defs) and all(isinstance(d.value, ast.Dict) or
+                                               (isinstance(d.value, ast.Call) and unparse(d.value.func) in ('determine_mixin_args', 'dict'))
+                                               for d in defs)
+        R.check('3.fresh', 'EFF', site, 'the defaults dictionary is created inside each call (callers mutate it)',
+                ok, key='returns %s' % [unparse(r.value_ast) for r in rets], detail='returned dictionary is not call-local', loc=f.loc())
     site = FA + '::generate_contributions'
     with R.guard('3.contrib', 'DOM', site, 'contributions'):
         f = ix.func(site)
@@ -464,6 +515,9 @@ def use(ix, R, table):
 
 TE = 'taurex/data/profiles/temperature/'
 MUTANTS = [
+    ('seed-c15-a', FA, "for k, v in config.items() if not isinstance(v, dict)]))", "for k, v in config.items() if k in kwargs and (not isinstance(v, dict))]))", '3.model'),
+    ('seed-c15-b', FA, "def get_keywordarg_dict(klass, is_mixin=False):", "import functools\n\n@functools.lru_cache(maxsize=None)\ndef get_keywordarg_dict(klass, is_mixin=False):", '3.stateless'),
+    ('model-component', FA, "        kwargs['star'] = star\n", "        kwargs['star'] = planet\n", '3.model.comp'),
     ('dup-keyword', TE + 'isothermal.py', "return ['isothermal']", "return ['isothermal', 'npoint']", '1.unique'),
     ('upper-keyword', TE + 'isothermal.py', "return ['isothermal']", "return ['Isothermal']", '1.lower'),
     ('regress-f19-doc', 'taurex/data/profiles/temperature/guillot.py', "def __init__(self, T_irr=1500, kappa_irr=0.01,", "def __init__(self, T_irr=1500, kappa_ir=0.01,", '2.doc.key'),
